@@ -27,6 +27,9 @@ pub struct Stats {
     pub recycled: u64,
     /// runs repeated in a process with pristine process-wide state
     pub fresh_runs: u64,
+    /// runs with a kernel-half recursive index (executed in a forked child) / given up
+    pub kernel_half_runs: u64,
+    pub kernel_half_unsupported: u64,
     pub views: BTreeMap<String, u64>,
     pub filtered: u64,
     pub mmu_faults: u64,
@@ -186,6 +189,9 @@ impl<'a> Exec<'a> {
         });
         crate::seams::persist_reset();
         let mut e = Exec { cfg: cfg.clone(), rs, probes: BOUNDARY.to_vec(), stats, scribble_salt: 1, enum_range_steps: 0 };
+        // (addresses under the recursive slot translate through the tables themselves)
+        let rec = e.rs.model.rec;
+        e.probes.retain(|va| rec.map_or(true, |r| (va >> 39) & 0x1ff != r as u64));
         set_run(&mut *e.rs as *mut RunState);
         *e.stats.views.entry(cfg.view.name().to_string()).or_insert(0) += 1;
         e.stats.runs += 1;
